@@ -289,7 +289,9 @@ def main():
         'setup_cmd': './setup.sh',
         'hooks': {
             'guard': 'vaporetto_verif',
-            'enable': 'RUSTFLAGS="--cfg vaporetto_verif" when building /verif/replay and /verif/kani (Verus reads source text and needs no hook)',
+            'enable': 'RUSTFLAGS="--cfg vaporetto_verif" when the driver (and setup.sh) build /verif/replay; Verus reads source text and needs no hook. Hooks: '
+                      '8f78040 Trainer::verif_examples (decoded training examples, c10 sweep); 8d92f65 VERIF_LEARNED (learned quantised boundary weights, c09 sweep); '
+                      '87b66b3 VERIF_TAG_LEARNED (learned quantised tag weights, c12 sweep)',
             'baseline_off_cmd': 'cd /repo && cargo test --workspace --no-fail-fast --offline',
             'source_commits': HOOK_COMMITS,
             'add_only': True,
@@ -309,9 +311,7 @@ def main():
     print('MANIFEST.json written: %d checks, %d not_applicable' % (len(checks), len(na)))
 
 
-HOOK_COMMITS = ['8f78040 verif hook (cfg vaporetto_verif): Trainer::verif_examples exposes the decoded training examples (used by the c10 sweep only; Verus needs no hook)',
-                '8d92f65 verif hook (cfg vaporetto_verif): Trainer::train records the learned quantised weights by feature name in VERIF_LEARNED (used by the c09 sweep only)',
-                '87b66b3 verif hook (cfg vaporetto_verif): TagTrainer records the learned quantised tag classifier weights in VERIF_TAG_LEARNED (used by the c12 sweep only)']
+HOOK_COMMITS = ['8f78040fda45c73f5cddb1615763e211f440821b', '8d92f65499c518cd6ad2fc524e865ad037eb0e81', '87b66b35432e5e45e483916e54ffba70e089c90a']
 
 if __name__ == '__main__':
     main()
